@@ -30,7 +30,7 @@ func marshalValue(self Value, span errors.Span, isInner bool, executor Executor)
 				return nil, false, err
 			}
 			// skip builtin functions
-			if marshaled != nil && !skipNull {
+			if !skipNull {
 				output[key] = marshaled
 			}
 		}
@@ -47,7 +47,7 @@ func marshalValue(self Value, span errors.Span, isInner bool, executor Executor)
 				return nil, false, err
 			}
 			// skip builtin functions
-			if marshaled != nil && !skipNull {
+			if !skipNull {
 				output[key] = marshaled
 			}
 		}
